@@ -276,7 +276,7 @@ def run(ctx):
         for K_, m_ in ((2, "default"), (3, "explicit")):
             one_case(ctx, ctx.rng(), wd, K=K_, mode=m_, force_N=int(ctx.rng().choice([6000, 9000])))
             ctx.count("systems_over_5000_particles")
-    n = ctx.n(300, 1500)
+    n = ctx.n(800, 1500)
     for i in range(n):
         rng = ctx.rng()
         one_case(ctx, rng, wd, K=(i % 6) + 1 if i < 18 else None, mode=("default" if i % 3 else "explicit") if i < 18 else None)
